@@ -162,4 +162,9 @@ let check_line (l : string) : string =
     let _ = next t in let _ = next t in let nent = next t in
     expect t "NAMES";
     if next_bool t then "OK" else "ORACLE C15.readdir_incomplete nent=" ^ nent
+  | "RDSMALL" ->
+    let _ = next t in let msize = next t in let pos = next t in
+    expect t "ERR";
+    if next_bool t then "OK"
+    else Printf.sprintf "ORACLE C15.readdir_hides_the_too_small_error msize=%s large_entry_at=%s" msize pos
   | x -> failwith ("mode ufs: bad record " ^ x)
